@@ -10,15 +10,16 @@ import vlib
 from gen import novel as GN
 from props import c04sim as SIM
 from props import c04split as SPLIT
+from props import c04chain as CHAIN
 
 ID = "C04"
 PROPS = ["IsoVerif/Props/C04.lean", "IsoVerif/Props/C04Graph.lean", "IsoVerif/Props/C04Store.lean",
          "IsoVerif/Props/C04Paths.lean", "IsoVerif/Props/C03Paths.lean", "IsoVerif/Props/C04Join.lean",
          "IsoVerif/Props/C04Terminals.lean", "IsoVerif/Props/C04Simplify.lean", "IsoVerif/Props/C04Similar.lean",
-         "IsoVerif/Props/C04Chromosome.lean"]
+         "IsoVerif/Props/C04Chromosome.lean", "IsoVerif/Props/C04Chain.lean"]
 TARGETS = ["IsoVerif.Props.C04", "IsoVerif.Props.C04Graph", "IsoVerif.Props.C04Store", "IsoVerif.Props.C04Paths",
            "IsoVerif.Props.C03Paths", "IsoVerif.Props.C04Join", "IsoVerif.Props.C04Terminals", "IsoVerif.Props.C04Simplify",
-           "IsoVerif.Props.C04Similar", "IsoVerif.Props.C04Chromosome"]
+           "IsoVerif.Props.C04Similar", "IsoVerif.Props.C04Chromosome", "IsoVerif.Props.C04Chain"]
 GEN_DEPS = ["Prims", "Enums", "Strategies", "Constants", "ModelConstruction", "EventClasses", "ComparatorTables"]
 LEVEL = "proof"
 RULE = ("in-process: seeded loci (exon lattice, annotated + unannotated isoforms, reads with splice-site jitter, truncation, "
@@ -1852,6 +1853,8 @@ def correspondence(ctx):
     SIM.correspondence(ctx)
     # growth: the constructors of one chromosome task (props/c04split.py)
     SPLIT.correspondence(ctx)
+    # closure p04chain: the second assigner's answers as a function of (read, content of the storage) (props/c04chain.py)
+    CHAIN.correspondence(ctx)
 
 
 # ---------------------------------------------------------------------------------------------------
